@@ -71,9 +71,19 @@ def encBlock (c : Cmd) (env : Env) (b : Blk) : Option Bytes :=
       let bs ← encField t v
       pure (acc ++ bs)) []
 
-/-- MS-CIFS 2.2.3.4: an AndX command's parameter block starts with AndXCommand (0xFF = none),
-    AndXReserved (0) and AndXOffset (USHORT, little-endian; 0 when there is no next command) -/
-def andxBlock (andx : Bool) : Bytes := if andx then [0xFF, 0x00, 0x00, 0x00] else []
+/-- MS-CIFS 2.2.3.4: an AndX command's parameter block starts with AndXCommand (UCHAR; 0xFF = no
+    further command), AndXReserved (UCHAR) and AndXOffset (USHORT, little-endian like every integer of
+    the protocol; 0 when there is no next command).  The values are those of the AndX block the command
+    holds (`SmbIR.andxField`); a command holding none announces "no further command".  `none` where the
+    values do not fit their fields. -/
+def andxBlock (andx : Bool) (env : Env) : Option Bytes :=
+  if andx then
+    match env.get andxField with
+    | none => some [0xFF, 0x00, 0x00, 0x00]
+    | some (.ns [c, r, o]) =>
+      if c < 256 ∧ r < 256 ∧ o < 65536 then some ([UInt8.ofNat c, UInt8.ofNat r] ++ natLe 2 o) else none
+    | some _ => none
+  else some []
 
 /-- `WordCount, Words, ByteCount (LE), Bytes`; `none` where MS-CIFS has no encoding for these values
     (odd parameter length, more than 255 words or 65535 bytes, values out of range, conditional
@@ -81,7 +91,8 @@ def andxBlock (andx : Bool) : Bytes := if andx then [0xFF, 0x00, 0x00, 0x00] els
 def encode (c : Cmd) (env : Env) : Option Bytes := do
   let p ← encBlock c env .P
   let d ← encBlock c env .D
-  let pw := andxBlock c.isAndX ++ p
+  let ax ← andxBlock c.isAndX env
+  let pw := ax ++ p
   if pw.length % 2 = 1 ∨ pw.length / 2 > 255 ∨ d.length > 65535 then none
   else if (layoutM c.marshal).isNone then none      -- conditional / repeated fields: not covered by this encoder
   else pure (UInt8.ofNat (pw.length / 2) :: pw ++ natLe 2 d.length ++ d)
@@ -100,7 +111,8 @@ def loopsOnly : List MStmt → Bool
 def encodeLists (c : Cmd) (env : Env) : Option Bytes := do
   let p ← encBlock c env .P
   let d ← encBlock c env .D
-  let pw := andxBlock c.isAndX ++ p
+  let ax ← andxBlock c.isAndX env
+  let pw := ax ++ p
   if pw.length % 2 = 1 ∨ pw.length / 2 > 255 ∨ d.length > 65535 then none
   else if !loopsOnly c.marshal then none
   else pure (UInt8.ofNat (pw.length / 2) :: pw ++ natLe 2 d.length ++ d)
@@ -137,7 +149,8 @@ def encodeOptional (c : Cmd) (env : Env) : Option Bytes := do
       (fun acc (g, t) => do pure (acc ++ (← encField t (← env.get g)))) []
   let p ← enc .P
   let d ← enc .D
-  let pw := andxBlock c.isAndX ++ p
+  let ax ← andxBlock c.isAndX env
+  let pw := ax ++ p
   if pw.length % 2 = 1 ∨ pw.length / 2 > 255 ∨ d.length > 65535 then none
   else pure (UInt8.ofNat (pw.length / 2) :: pw ++ natLe 2 d.length ++ d)
 
